@@ -14,7 +14,7 @@ Extraction "model.ml"
   translate_history translate_history_w
   parse_args resolve_from extension_format run_cli
   detect_format start
-  chunker
+  chunker has_document
   mrun m0 mclean read_handler
   next_value_size transcode_slice transcode_reader mm_output mm_ok msgpack_matches DEPTH_LIMIT
   json_slice json_reader jm_output jm_ok f64_of_decimal json_to_json msgpack_to_json.
